@@ -27,22 +27,22 @@ RemoveAll(s, xs) == IF xs = <<>> THEN s ELSE RemoveAll(Without(s, Head(xs)), Tai
 
 Bump(S) == [S EXCEPT !.n = S.n + 1, !.meta = Append(S.meta, NoMeta)]   \* every appended operation gets a position
 
-ApplyCreate(S, a) ==
+ApplyCreate(S, a, wf) ==
   LET i == S.n + 1 IN
   [Bump(S) EXCEPT !.title = i, !.author = a,
      !.actors = AddOnce(S.actors, a), !.participants = AddOnce(S.participants, a),
-     !.comments = <<[op |-> i, au |-> a, msg |-> i]>>,
+     !.comments = <<[op |-> i, au |-> a, msg |-> i, files |-> IF wf THEN i ELSE 0]>>,
      !.timeline = <<[kind |-> "create", op |-> i, au |-> a, hist |-> <<i>>, a1 |-> <<>>, a2 |-> <<>>]>>,
      !.meta = Append(S.meta, [NoMeta EXCEPT !["k0"] = Own])]
 
-ApplyAddComment(S, a) ==
+ApplyAddComment(S, a, wf) ==
   LET i == S.n + 1 IN
   [Bump(S) EXCEPT !.actors = AddOnce(S.actors, a), !.participants = AddOnce(S.participants, a),
-     !.comments = Append(S.comments, [op |-> i, au |-> a, msg |-> i]),
+     !.comments = Append(S.comments, [op |-> i, au |-> a, msg |-> i, files |-> IF wf THEN i ELSE 0]),
      !.timeline = Append(S.timeline, [kind |-> "comment", op |-> i, au |-> a, hist |-> <<i>>, a1 |-> <<>>, a2 |-> <<>>])]
 
 (* target: position of the targeted operation, 0 = an id that designates no operation of this bug *)
-ApplyEditComment(S, a, target) ==
+ApplyEditComment(S, a, target, wf) ==
   LET i == S.n + 1
       hit == {j \in DOMAIN S.timeline : S.timeline[j].op = target} IN
   IF hit = {} \/ \A j \in hit : S.timeline[j].kind \notin {"create", "comment"}
@@ -51,7 +51,8 @@ ApplyEditComment(S, a, target) ==
        [Bump(S) EXCEPT !.actors = AddOnce(S.actors, a),
           !.timeline[j].hist = Append(S.timeline[j].hist, i),
           !.comments = [c \in DOMAIN S.comments |->
-                          IF S.comments[c].op = target THEN [S.comments[c] EXCEPT !.msg = i] ELSE S.comments[c]]]
+                          IF S.comments[c].op = target THEN [S.comments[c] EXCEPT !.msg = i, !.files = IF wf THEN i ELSE 0]
+                          ELSE S.comments[c]]]      \* text and files are those of the latest edit
 
 ApplySetTitle(S, a) ==
   LET i == S.n + 1 IN
@@ -99,9 +100,9 @@ ApplyNoOp(S, a) == Bump(S)
 (* one API call *)
 Target(S, t) == CASE t = "create" -> 1 [] t = "last" -> S.n [] OTHER -> 0
 Apply(S, c) ==
-  CASE c.k = "create"   -> ApplyCreate(S, c.a)
-    [] c.k = "comment"  -> ApplyAddComment(S, c.a)
-    [] c.k = "edit"     -> ApplyEditComment(S, c.a, Target(S, c.t))
+  CASE c.k = "create"   -> ApplyCreate(S, c.a, c.wf)
+    [] c.k = "comment"  -> ApplyAddComment(S, c.a, c.wf)
+    [] c.k = "edit"     -> ApplyEditComment(S, c.a, Target(S, c.t), c.wf)
     [] c.k = "title"    -> ApplySetTitle(S, c.a)
     [] c.k = "status"   -> ApplySetStatus(S, c.a, c.s)
     [] c.k = "labelf"   -> ApplyLabelChange(S, c.a, c.add, c.rem)
